@@ -174,41 +174,64 @@ def mpf_mul_ui (pplus : Variant) (s : St) (x : Src) (v : Nat) : St :=
 
 /- ------------------------------------------------------------------ add.c -/
 
-/-- add.c:126-170, `ediff < prec`: the three alignments into the TMP area, the copy to rp, the carry limb.
-    Returns the state, rsize and the carry. -/
-def addOverlap (s : St) (us : Src) (uoff usize : Nat) (vs : Src) (voff vsize ed : Nat) : St × Nat × Nat :=
-  let q : St × Nat × Nat :=
-    if usize > ed then                                        -- :129
-      if vsize + ed ≤ usize then                              -- :132  uuuu / v
-        let size := usize - ed - vsize                        -- :137
-        let a := s.rd us uoff size                            -- :138 MPN_COPY (tp, up, size)
-        let s := a.2.wrT 0 a.1
-        let x := s.rd us (uoff + size) (usize - size)         -- :139 mpn_add (tp + size, up + size, usize - size, vp, vsize)
-        let y := x.2.rd vs voff vsize
-        let w := Mpf.addv x.1 y.1
-        (y.2.wrT size w.1, usize, w.2)                        -- :140
-      else                                                    -- :142  uuuu / vvvvv
-        let size := vsize + ed - usize                        -- :147
-        let a := s.rd vs voff size                            -- :148 MPN_COPY (tp, vp, size)
-        let s := a.2.wrT 0 a.1
-        let x := s.rd us uoff usize                           -- :149 mpn_add (tp + size, up, usize, vp + size, usize - ediff)
-        let y := x.2.rd vs (voff + size) (usize - ed)
-        let w := Mpf.addv x.1 y.1
-        (y.2.wrT size w.1, vsize + ed, w.2)                   -- :150
-    else                                                      -- :153  uuuu / (gap) vv
-      let size := vsize + ed - usize                          -- :158
-      let a := s.rd vs voff vsize                             -- :159 MPN_COPY (tp, vp, vsize)
+/-- add.c:126-164, `ediff < prec`: the three alignments into the TMP area.  Returns the state, rsize and the carry. -/
+def addAlign (s : St) (us : Src) (uoff usize : Nat) (vs : Src) (voff vsize ed : Nat) : St × Nat × Nat :=
+  if usize > ed then                                          -- :129
+    if vsize + ed ≤ usize then                                -- :132  uuuu / v
+      let size := usize - ed - vsize                          -- :137
+      let a := s.rd us uoff size                              -- :138 MPN_COPY (tp, up, size)
       let s := a.2.wrT 0 a.1
-      let s := s.wrT vsize (List.replicate (ed - usize) 0)    -- :160 MPN_ZERO (tp + vsize, ediff - usize)
-      let b := s.rd us uoff usize                             -- :161 MPN_COPY (tp + size, up, usize)
-      (b.2.wrT size b.1, size + usize, 0)                     -- :162-163
-  let s := q.1
-  let rsize := q.2.1
-  let cy := q.2.2
-  let c := s.rdT 0 rsize                                      -- :166 MPN_COPY (rp, tp, rsize)
+      let x := s.rd us (uoff + size) (usize - size)           -- :139 mpn_add (tp + size, up + size, usize - size, vp, vsize)
+      let y := x.2.rd vs voff vsize
+      let w := Mpf.addv x.1 y.1
+      (y.2.wrT size w.1, usize, w.2)                          -- :140
+    else                                                      -- :142  uuuu / vvvvv
+      let size := vsize + ed - usize                          -- :147
+      let a := s.rd vs voff size                              -- :148 MPN_COPY (tp, vp, size)
+      let s := a.2.wrT 0 a.1
+      let x := s.rd us uoff usize                             -- :149 mpn_add (tp + size, up, usize, vp + size, usize - ediff)
+      let y := x.2.rd vs (voff + size) (usize - ed)
+      let w := Mpf.addv x.1 y.1
+      (y.2.wrT size w.1, vsize + ed, w.2)                     -- :150
+  else                                                        -- :153  uuuu / (gap) vv
+    let size := vsize + ed - usize                            -- :158
+    let a := s.rd vs voff vsize                               -- :159 MPN_COPY (tp, vp, vsize)
+    let s := a.2.wrT 0 a.1
+    let s := s.wrT vsize (List.replicate (ed - usize) 0)      -- :160 MPN_ZERO (tp + vsize, ediff - usize)
+    let b := s.rd us uoff usize                               -- :161 MPN_COPY (tp + size, up, usize)
+    (b.2.wrT size b.1, size + usize, 0)                       -- :162-163
+
+/-- add.c:166-167: `MPN_COPY (rp, tp, rsize); rp[rsize] = cy;` -/
+def addStore (q : St × Nat × Nat) : St × Nat × Nat :=
+  let c := q.1.rdT 0 q.2.1                                    -- :166 MPN_COPY (rp, tp, rsize)
   let s := c.2.wrR 0 c.1
-  let s := s.wrR rsize [cy]                                   -- :167 rp[rsize] = cy
-  (s, rsize, cy)
+  let s := s.wrR q.2.1 [q.2.2]                                -- :167 rp[rsize] = cy
+  (s, q.2.1, q.2.2)
+
+/-- add.c:126-170, `ediff < prec` -/
+def addOverlap (s : St) (us : Src) (uoff usize : Nat) (vs : Src) (voff vsize ed : Nat) : St × Nat × Nat :=
+  addStore (addAlign s us uoff usize vs voff vsize ed)
+
+/-- add.c:80-174 after the exponent swap: `us` is the operand with the larger (or equal) exponent -/
+def addSameSign (pplus : Variant) (s : St) (negate : Bool) (us vs : Src) : St :=
+  let usize := (s.obj us).size.natAbs                         -- :80
+  let vsize := (s.obj vs).size.natAbs                         -- :81
+  let prec := s.r.prec + pplus                                -- :85
+  let uexp := (s.obj us).exp                                  -- :86
+  let ediff : Int := uexp - (s.obj vs).exp                    -- :87
+  let uoff := if usize > prec then usize - prec else 0        -- :90-94
+  let usize := if usize > prec then prec else usize
+  let vcut : Bool := (vsize : Int) + ediff > prec             -- :98
+  let voff := if vcut then ((vsize : Int) + ediff - prec).toNat else 0   -- :100
+  let vsize : Int := if vcut then (prec : Int) - ediff else vsize        -- :101 "this may make vsize negative"
+  let s := s.tmpAlloc prec                                    -- :115 tp = TMP_ALLOC (prec * BYTES_PER_MP_LIMB)
+  if ediff ≥ prec then                                        -- :117
+    let s := if us = .r ∧ uoff = 0 then s else s.copyToR 0 us uoff usize   -- :120-121 if (rp != up) MPN_COPY_INCR
+    s.setSE (if negate then -(usize : Int) else usize) uexp   -- :122, :172-173
+  else
+    let q := addOverlap s us uoff usize vs voff vsize.toNat ediff.toNat
+    let rsize := q.2.1 + q.2.2                                -- :168
+    q.1.setSE (if negate then -(rsize : Int) else rsize) (uexp + q.2.2)   -- :169, :172-173
 
 /-- mpf_add (r, u, v), mpf/add.c:26-175, for operands of equal sign or a zero operand (`none`: different signs — the call is
     handed to mpf_sub, add.c:56-64, not mirrored here). -/
@@ -220,27 +243,8 @@ def mpf_add (pplus : Variant) (s : St) (us vs : Src) : Option St :=
   else if (usize < 0) != (vsize < 0) then none                -- :56-64
   else
     let negate := usize < 0                                   -- :69
-    let sw := (s.obj us).exp < (s.obj vs).exp                 -- :72-78
-    let us' := if sw then vs else us
-    let vs' := if sw then us else vs
-    let usize := (s.obj us').size.natAbs                      -- :80
-    let vsize := (s.obj vs').size.natAbs                      -- :81
-    let prec := s.r.prec + pplus                              -- :85
-    let uexp := (s.obj us').exp                               -- :86
-    let ediff : Int := uexp - (s.obj vs').exp                 -- :87
-    let uoff := if usize > prec then usize - prec else 0      -- :90-94
-    let usize := if usize > prec then prec else usize
-    let vcut : Bool := (vsize : Int) + ediff > prec           -- :98
-    let voff := if vcut then ((vsize : Int) + ediff - prec).toNat else 0   -- :100
-    let vsize : Int := if vcut then (prec : Int) - ediff else vsize        -- :101 "this may make vsize negative"
-    let s := s.tmpAlloc prec                                  -- :115 tp = TMP_ALLOC (prec * BYTES_PER_MP_LIMB)
-    if ediff ≥ prec then                                      -- :117
-      let s := if us' = .r ∧ uoff = 0 then s else s.copyToR 0 us' uoff usize   -- :120-121 if (rp != up) MPN_COPY_INCR
-      some (s.setSE (if negate then -(usize : Int) else usize) uexp)      -- :122, :172-173
-    else
-      let q := addOverlap s us' uoff usize vs' voff vsize.toNat ediff.toNat
-      let rsize := q.2.1 + q.2.2                              -- :168
-      some (q.1.setSE (if negate then -(rsize : Int) else rsize) (uexp + q.2.2))   -- :169, :172-173
+    let sw := (s.obj us).exp < (s.obj vs).exp                 -- :72-78 make U the operand with the largest exponent
+    some (addSameSign pplus s negate (if sw then vs else us) (if sw then us else vs))
 
 /- ------------------------------------------------------------------ what the harness prints -/
 
